@@ -76,7 +76,7 @@ def run(mod, tier, all_violations=False, t0=None, extra=None):
         "initial_states": res["initial"], "max_bfs_depth": res["max_depth"], "distinct_dense_outcomes": res["dense_outcomes"],
         "fixpoint_reached": not res["capped"], "exhaustive": not res["capped"], "stopped_after_first_violating_level": bool(unmatched) and res["capped"], "bounds": res["cfg"],
         "rule": desc["rule"], "violating_transitions_not_expanded": res["pruned"], "violations_of_other_properties_on_this_graph": others,
-        "known_finding_hits": hits, "evaluations": res["transitions"], "distinct_nontrivial": res["states"] - res["initial"],
+        "known_finding_hits": hits, "search_counters": res.get("stats", {}), "evaluations": res["transitions"], "distinct_nontrivial": res["states"] - res["initial"],
     }
     cov.update(extra_cov)
     wall = time.time() - t0
